@@ -408,11 +408,12 @@ func init() {
 			chk("and_is_conj", andv, wantAnd)
 			// $not
 			od := opDoc(r, 1, false)
+			if r.P(40) {
+				od = append(od, oneOp(r, 0, false))
+			}
 			pos, _ := implMatch(doc, bson.D{{Key: p, Value: od}})
 			notv, _ := implMatch(doc, bson.D{{Key: p, Value: bson.D{{Key: "$not", Value: od}}}})
-			if len(od) == 1 {
-				chk("not_is_negation", notv, neg(pos))
-			}
+			chk("not_is_negation", notv, neg(pos))
 			// document = $and of its entries
 			if len(q) > 1 {
 				parts := bson.A{}
